@@ -76,6 +76,7 @@ inductive Out
   | leafStop (i : Nat)                 -- leaf i got a stop notification
   | localsDead (f : Nat)               -- locals of frame f destroyed
   | cleanup (f a : Nat)                -- cleanup a of frame f ran
+  | cleanupSched (k : Nat)             -- … and the scheduler it sees is k (the task's scheduler when it was registered)
   | frameDead (f : Nat)                -- coroutine frame f destroyed
   | sched (k : Nat)                    -- a schedule() operation of scheduler k was started
   | schedCancel (k : Nat)              -- a schedule() operation of scheduler k saw a stop request and completed with done
@@ -98,7 +99,8 @@ structure Frame where
   id : Nat
   kont : Prog                          -- rest of the body
   acc : Nat
-  cleanups : List (Nat × CK)           -- registered and not yet run, most recent first: (action label, kind)
+  cleanups : List (Nat × CK × Nat)     -- registered and not yet run, most recent first:
+                                       --   (action label, kind, the task's scheduler at registration)
   catching : Bool                      -- the co_await it is suspended in is inside a try block
   live : Bool                          -- body started and not finished: locals alive
   sched : Nat                          -- the scheduler the task currently runs on (promise.sched_)
@@ -190,7 +192,7 @@ def execStep (s : St) (fr : Frame) (rest : List Frame) : St :=
     if s.srcStopped then { s with frames := { fr with kont := k } :: rest, ctl := .exit .done }
     else { s with frames := { fr with kont := k } :: rest }
   | .atExit a l :: k =>
-    emit { s with frames := { fr with kont := k, cleanups := (a, ckOf l) :: fr.cleanups, regd := a :: fr.regd } :: rest }
+    emit { s with frames := { fr with kont := k, cleanups := (a, ckOf l, fr.sched) :: fr.cleanups, regd := a :: fr.regd } :: rest }
       (.reg fr.id a)
   | .await i t :: k =>
     let s1 := emit { s with frames := { fr with kont := k, catching := t } :: rest } (.leafStart i s.srcStopped)
@@ -215,7 +217,7 @@ def execStep (s : St) (fr : Frame) (rest : List Frame) : St :=
     -- scheduler the task was started on; then the task's scheduler is replaced and schedule(n) is awaited
     let s1 : St :=
       if fr.resched then { s with frames := { fr with kont := k, catching := false, sched := n } :: rest }
-      else emit { s with frames := { fr with kont := k, catching := false, sched := n, resched := true, cleanups := (0, CK.back fr.sched) :: fr.cleanups, regd := 0 :: fr.regd } :: rest } (.reg fr.id 0)
+      else emit { s with frames := { fr with kont := k, catching := false, sched := n, resched := true, cleanups := (0, CK.back fr.sched, 0) :: fr.cleanups, regd := 0 :: fr.regd } :: rest } (.reg fr.id 0)
     -- await_transform(*this, snd.base()): the raw schedule() sender, connected with the task's stop token
     let s2 := emit s1 (.sched n)
     if s.srcStopped then { emit s2 (.schedCancel n) with ctl := .resume .done }
@@ -232,20 +234,20 @@ def resumeStep (s : St) (fr : Frame) (rest : List Frame) (o : Outcome) : St :=
 
 def exitStep (s : St) (fr : Frame) (rest : List Frame) (o : Outcome) : St :=
   match fr.cleanups with
-  | (a, ck) :: cs =>
-    let s1 := emit { s with frames := { fr with cleanups := cs, ran := fr.ran ++ [a] } :: rest } (.cleanup fr.id a)
+  | (a, ck, q) :: cs =>
+    let s0 := emit { s with frames := { fr with cleanups := cs, ran := fr.ran ++ [a] } :: rest } (.cleanup fr.id a)
     match ck with
-    | .sync => s1
+    | .sync => emit s0 (.cleanupSched q)
     | .leaf l =>
       -- the cleanup action awaits leaf l (unstoppable token; no scheduler hop)
-      let s2 := emit s1 (.leafStart l false)
+      let s2 := emit (emit s0 (.cleanupSched q)) (.leafStart l false)
       match (specs l).kind with
       | .inline (.value _) => s2
       | .inline _ => { emit s2 .terminate with ctl := .dead }
       | .pending _ => { s2 with ctl := .waitCleanup l o }
     | .back n =>
       -- the internal cleanup awaits schedule(n)
-      let s2 := emit s1 (.sched n)
+      let s2 := emit s0 (.sched n)
       if s.inlineSched then s2 else { s2 with ctl := .waitBack o, queue := s2.queue ++ [.back] }
   | [] =>
     match o with
